@@ -160,6 +160,16 @@ func (r Rules) GetIncludes() []*Include {
 //
 // Note: logs.regCleanLogs helps a lot to do a first cleaning
 func (r Rules) Merge() Rules {
+	// A merge changes a rule, that can make it mergeable with a rule already
+	// passed over: repeat until a pass removes nothing.
+	for n := 0; n != len(r); {
+		n = len(r)
+		r = r.mergeOnce()
+	}
+	return r
+}
+
+func (r Rules) mergeOnce() Rules {
 	for i := 0; i < len(r); i++ {
 		for j := i + 1; j < len(r); j++ {
 			if r[i] == nil && r[j] == nil {
